@@ -11,4 +11,7 @@ CONSTANTS
   WildcardsFirst = TRUE
   LastGlobWins = TRUE
   LeadingStarZero = TRUE
+  Umbrella = FALSE
+  UVal = "p"
+  UmbrellaAfterConfig = TRUE
 INVARIANT Emit
